@@ -38,6 +38,8 @@ VARS = ("a", "b", "c", "d")
 def warm() -> None:
     genv.warm_imports()
     import guppylang_internals.cfg.cfg  # noqa: F401
+    import guppylang_internals.experimental as X
+    X.EXPERIMENTAL_FEATURES_ENABLED = True   # mode S uses comprehensions and with-blocks
     from sim.props import c09_source  # noqa: F401
 
 
@@ -297,7 +299,7 @@ def run_case(ch: Choices, params: dict) -> dict:
     viol: list[dict] = []
     probes = {"unreachable_cycle": 0, "borrowed_exit_unreachable": 0, "dummy_edges": 0,
               "requeued>=3": 0, "schedule_differs_from_lowest": 0, "maybe_entry_strict": 0,
-              "nested_function": 0, "exit_disconnected": 0}
+              "nested_function": 0, "exit_disconnected": 0, "with_block": 0, "comprehension": 0}
     trace: dict = {}
     if source_mode:
         from sim.props import c09_source
@@ -313,6 +315,8 @@ def run_case(ch: Choices, params: dict) -> dict:
         used = [set(stats0[bb].used) for bb in cfg.bbs]
         assigned = [set(stats0[bb].assigned) for bb in cfg.bbs]
         probes["nested_function"] = int(src.count("def ") > 1)
+        probes["with_block"] = int("with " in src)
+        probes["comprehension"] = int(" for i in range" in src or " for j in range" in src)
         # upper bound on variables of any (nested) analysis: all identifiers in the source
         vs_n = len({n.id for n in ast.walk(ast.parse(src)) if isinstance(n, ast.Name)}
                    | {a.arg for a in ast.walk(ast.parse(src)) if isinstance(a, ast.arg)}) + 8
